@@ -53,6 +53,15 @@ ASSUMPTIONS = [
     "non-zero unused pad bits - all spellings are generated from known octets and checked with a hand-written lenient decoder) a "
     "client may instead REFUSE the challenge (RFC 4648 3.3/3.5 allow strict decoders): counted, not a violation. Characters "
     "outside the alphabet other than CR/LF and missing padding are not driven",
+    "WAMP-CRA entry points: auth.AuthWampCra, auth.create_authenticator('wampcra'), Session.add_authenticator()+onChallenge() (both "
+    "frameworks; this is what Component(authentication={'wampcra': ...}) wires up in component.py create_session(), the Component's "
+    "own connect loop is not driven) and the separate AuthWampCra class exported by autobahn.twisted.wamp (Twisted shards only; "
+    "autobahn.asyncio.wamp exports no authenticator class) x key lengths {16,20,32,33,48,64}",
+    "session level (both frameworks): a real twisted/asyncio Session with create_authenticator()+add_authenticator() behind the "
+    "real WebSocket/RawSocket client transport of vf.world, the harness is the router. 'joined' = on_join fired or session id set. "
+    "The verdict 'must not join' is asserted for WELCOMEs naming a method that was not offered / naming no method only when the "
+    "session offered WAMP-SCRAM (the statement's mutual-authentication clause) and for authmethod=scram with a wrong/missing server "
+    "signature; other configurations are observed (counters session_impostor_other_config_*). SCRAM salts are canonical here",
     "concurrent cryptosign requests: on asyncio the requests overlap (the reply future of request i is pending when request i+1 "
     "starts: counter cryptosign_concurrent_overlapping_starts); on Twisted fired Deferreds complete synchronously, so the same "
     "schedule degenerates to sequential use - both are judged by the same oracle",
@@ -89,12 +98,21 @@ DECIDING = {
     # one key object / authenticator, 2..4 signing requests in flight at once, each reply judged against its own challenge
     "cryptosign_concurrent_replies_judged_tx": 50,
     "cryptosign_concurrent_replies_judged_aio": 50,
+    # WAMP-CRA through every public entry point x key lengths {16,20,32,33,48,64}
+    "cra_entry_compared/auth.AuthWampCra": 60, "cra_entry_compared/create_authenticator": 60,
+    "cra_entry_compared/session.onChallenge": 60, "cra_entry_compared/twisted.wamp.AuthWampCra": 30,
+    "cra_entry_compared/session-wire": 10,
+    # session level (real Session + add_authenticator over the real transport, scripted router)
+    "session_authenticate_judged": 50, "session_honest_flows_judged": 30,
+    "session_impostor_welcomes_judged/foreign-authmethod": 20, "session_impostor_welcomes_judged/foreign-authmethod-after-challenge": 20,
+    "session_impostor_welcomes_judged/bad-server-signature": 30,
+    "session_impostor_welcomes_judged/missing-authmethod": 4,
 }
 
-SECTIONS = ["cra", "totp", "scram-argon", "scram-pbkdf2", "scram-credential", "cryptosign"]
+SECTIONS = ["cra", "totp", "scram-argon", "scram-pbkdf2", "scram-credential", "cryptosign", "session"]
 LAYOUT = {   # section -> number of parts per framework
-    "quick": {"cra": 2, "totp": 1, "scram-argon": 2, "scram-pbkdf2": 1, "scram-credential": 1, "cryptosign": 1},
-    "thorough": {"cra": 5, "totp": 1, "scram-argon": 3, "scram-pbkdf2": 1, "scram-credential": 1, "cryptosign": 3},
+    "quick": {"cra": 2, "totp": 1, "scram-argon": 2, "scram-pbkdf2": 1, "scram-credential": 1, "cryptosign": 1, "session": 1},
+    "thorough": {"cra": 5, "totp": 1, "scram-argon": 3, "scram-pbkdf2": 1, "scram-credential": 1, "cryptosign": 3, "session": 2},
 }
 
 NONASCII = "äöüßéèñçøåŁžșΩλπЖдя中文日本語한글€£¥©®™–—“”"
@@ -172,11 +190,11 @@ class _Session:
 _LOOP = None
 
 
-def _setup_fw():
+def _setup_fw(own_loop=True):
     global _LOOP
     import txaio
 
-    if txaio.using_asyncio and _LOOP is None:
+    if own_loop and txaio.using_asyncio and _LOOP is None:
         import asyncio
 
         _LOOP = asyncio.new_event_loop()
@@ -1326,14 +1344,337 @@ def gen_cryptosign_cases(rng, tier, part, parts):
         yield {"kind": "xor", "a": rng.randbytes(ln).hex(), "b": rng.randbytes(ln).hex()}
 
 
+
+# ------------------------------------------------------------------------------------------------
+# WAMP-CRA through EVERY public entry point that computes a signature
+# ------------------------------------------------------------------------------------------------
+CRA_KEYLENS = (16, 20, 32, 33, 48, 64)
+
+
+def _fw_session_class():
+    import txaio
+
+    if txaio.using_twisted:
+        from autobahn.twisted.wamp import Session
+    else:
+        from autobahn.asyncio.wamp import Session
+    return Session
+
+
+def run_cra_entry(case, R):
+    """One salted/unsalted WAMP-CRA challenge signed through every public entry point of the process' framework: the generic
+    auth.AuthWampCra, auth.create_authenticator("wampcra"), the separate AuthWampCra class exported by autobahn.twisted.wamp
+    (Twisted processes only; autobahn.asyncio.wamp exports none) and Session.add_authenticator()+onChallenge() (what
+    Component(authentication={"wampcra": {...}}) wires up: component.py create_session() = create_authenticator + add_authenticator).
+    Each signature is compared with base64(HMAC-SHA256(PBKDF2-HMAC-SHA256(secret, salt, iterations, keylen) b64, challenge))."""
+    import txaio
+    from autobahn.wamp import auth
+    from autobahn.wamp.types import Challenge, ComponentConfig
+
+    R.count("evaluations")
+    secret, salt, it, kl, chal = case["secret"], case["salt"], case["iterations"], case["keylen"], case["challenge"]
+    salted = salt is not None
+    ref_key = CR.cra_key(secret.encode("utf8"), salt.encode("utf8") if salted else None, it, kl)
+    ref_sig = CR.cra_signature(ref_key, chal.encode("utf8")).decode("ascii")
+    extra = {"challenge": chal}
+    if salted:
+        extra.update(salt=salt, iterations=it, keylen=kl)
+    sec = secret.encode("utf8") if case.get("secret_as_bytes") else secret
+
+    def via_session():
+        sess = _fw_session_class()(ComponentConfig("realm1"))
+        sess.add_authenticator(auth.create_authenticator("wampcra", authid="user1", secret=sec))
+        return sess.onChallenge(Challenge("wampcra", dict(extra)))
+
+    entries = [("auth.AuthWampCra", lambda: auth.AuthWampCra(authid="user1", secret=sec).on_challenge(_Session(), Challenge("wampcra", dict(extra)))),
+               ("create_authenticator", lambda: auth.create_authenticator("wampcra", authid="user1", secret=sec).on_challenge(
+                   _Session(), Challenge("wampcra", dict(extra)))),
+               ("session.onChallenge", via_session)]
+    if txaio.using_twisted:
+        from autobahn.twisted import wamp as txwamp
+
+        if hasattr(txwamp, "AuthWampCra"):
+            entries.append(("twisted.wamp.AuthWampCra", lambda: txwamp.AuthWampCra(authid="user1", secret=sec).on_challenge(
+                _Session(), Challenge("wampcra", dict(extra)))))
+    else:
+        from autobahn.asyncio import wamp as aiowamp
+
+        if hasattr(aiowamp, "AuthWampCra"):
+            entries.append(("asyncio.wamp.AuthWampCra", lambda: aiowamp.AuthWampCra(authid="user1", secret=sec).on_challenge(
+                _Session(), Challenge("wampcra", dict(extra)))))
+    mech = "salted" if salted else "unsalted"
+    for name, fn in entries:
+        try:
+            got = fn()
+        except Exception as e:
+            R.violation("C19/cra/entry/%s/%s/raises/%s" % (name, mech, _exc(e)), "%s raised %r" % (name, e),
+                        {"iterations": it, "keylen": kl}, case)
+            continue
+        R.count("cra_entry_compared/" + name)
+        R.count("cra_signatures_compared")
+        R.seen("nontrivial", h(["cra-entry", name, secret, salt, it, kl, chal]))
+        R.seen("configs", "cra-entry/%s/%s/kl=%s" % (name, mech, kl))
+        if got != ref_sig:
+            R.violation("C19/cra/entry/%s/%s/signature-mismatch" % (name, mech),
+                        "%s returned %r for a %s challenge (iterations=%s keylen=%s), independent reference = %r"
+                        % (name, got, mech, it, kl, ref_sig), {"iterations": it, "keylen": kl, "got": repr(got), "want": ref_sig}, case)
+
+
+def gen_cra_entry_cases(rng, tier):
+    n = 0
+    for rep in range(1 if tier == "quick" else 6):
+        for kl in CRA_KEYLENS + (None,):
+            for it in (1, 2, 3, 10, 100, 1000):
+                n += 1
+                salted = kl is not None
+                sc = rng.choice(["ascii", "alnum", "nonascii", "astral", "empty" if rng.random() < 0.3 else "ascii"])
+                if not salted and it > 2:
+                    continue
+                yield {"kind": "cra-entry", "secret": gen_text(rng, sc, 1, 40), "secret_class": sc,
+                       "salt": gen_text(rng, rng.choice(["ascii", "alnum", "nonascii"]), 1, 24) if salted else None,
+                       "iterations": it if salted else None, "keylen": kl, "challenge": gen_challenge(rng, rng.choice(["json", "nonascii", "escaped"])),
+                       "secret_as_bytes": rng.random() < 0.25}
+
+
+# ------------------------------------------------------------------------------------------------
+# session level: a real Session with add_authenticator() over the real client transport against a scripted router
+# ------------------------------------------------------------------------------------------------
+SESSION_CONFIGS = [["scram"], ["scram"], ["scram", "cryptosign"], ["scram", "wampcra", "ticket"], ["cryptosign"], ["wampcra"],
+                   ["ticket"], ["scram", "anonymous"], ["cryptosign", "anonymous"]]
+FOREIGN_METHODS = ["anonymous", "ticket", "tls", "cookie", "wampcra", "scram", "cryptosign", "cryptosign-proxy", "anonymous-proxy", "",
+                   "SCRAM", "scram-sha-256"]
+WELCOME_ROLES_ = {"broker": {}, "dealer": {}}
+
+
+def _make_session_factory(case, made):
+    from autobahn.wamp import auth
+    from autobahn.wamp.types import ComponentConfig
+
+    Base = _fw_session_class()
+
+    class S(Base):
+        def on_join(self, details):
+            self.events.append(("join", details.session, details.authmethod))
+
+        def on_leave(self, details):
+            self.events.append(("leave", details.reason))
+            self.disconnect()
+
+        def on_disconnect(self):
+            self.events.append(("disconnect",))
+
+    cfgs = {"scram": dict(authid=case["authid"], password=case["password"]),
+            "cryptosign": dict(authid=case["authid"], privkey=case["seed"]),
+            "wampcra": dict(authid=case["authid"], secret=case["secret"]),
+            "ticket": dict(authid=case["authid"], ticket=case["ticket"]),
+            "anonymous": dict()}
+
+    def factory():
+        sess = S(ComponentConfig("realm1"))
+        sess.events = []
+        for m in case["methods"]:       # what Component(authentication={...}) does per session
+            sess.add_authenticator(auth.create_authenticator(m, **cfgs[m]))
+        made.append(sess)
+        return sess
+    return factory
+
+
+def run_session_auth(case, R):
+    """HELLO -> [CHALLENGE -> AUTHENTICATE] -> WELCOME against a real Session: the AUTHENTICATE signature is judged by the
+    independent verifier; the session may join only when the flow is honest."""
+    from vf.wamp_harness import RouterPeer
+
+    R.count("evaluations")
+    methods, flow = case["methods"], case["flow"]
+    cls = "scram-config" if "scram" in methods else "other-config"
+    base = "C19/session/%s" % flow
+    made = []
+    rp = RouterPeer(_make_session_factory(case, made), transport=case["transport"], serializer=case["serializer"])
+
+    def viol(key, what, **detail):
+        detail.update(methods=methods, flow=flow, challenge_method=case.get("challenge_method"), welcome_authmethod=case.get("welcome_authmethod"),
+                      transport=case["transport"], serializer=case["serializer"])
+        R.violation(key, what, detail, case)
+
+    try:
+        rp.connect()
+        msgs = rp.recv()
+        if not msgs or msgs[0][0] != 1:
+            raise CR.RefError("session did not send HELLO: %r" % (msgs,))
+        hello = msgs[0][2]
+        if sorted(hello.get("authmethods") or []) != sorted(methods):
+            viol("C19/session/hello/authmethods", "HELLO announces %r, configured %r" % (hello.get("authmethods"), methods))
+        sess = made[-1]
+        sent = []
+        authextra = None
+        cm = case.get("challenge_method")
+        if cm is not None:
+            ax = hello.get("authextra") or {}
+            if cm == "scram":
+                cn = ax.get("nonce")
+                sc = dict(case["scram"], authid=case["authid"], password=case["password"])
+                ch = _scram_challenge(sc, cn)
+                rp.send([4, "scram", ch.extra])
+            elif cm == "cryptosign":
+                rp.send([4, "cryptosign", {"challenge": case["challenge_hex"]}])
+            elif cm == "wampcra":
+                c = case["cra"]
+                rp.send([4, "wampcra", {"challenge": c["challenge"], "salt": c["salt"], "iterations": c["iterations"], "keylen": c["keylen"]}])
+            elif cm == "ticket":
+                rp.send([4, "ticket", {}])
+            sent = rp.recv()
+            if len(sent) != 1 or sent[0][0] != 5:
+                viol("C19/session/%s/no-authenticate" % cm, "CHALLENGE(%s) answered with %r instead of one AUTHENTICATE" % (cm, sent))
+                return
+            sig = sent[0][1]
+            R.count("session_authenticate_judged")
+            ok = None
+            if cm == "scram":
+                keys, am = _scram_ref(sc, cn)
+                try:
+                    ok = CR.scram_server_verify(keys.stored_key, am, base64.b64decode(sig, validate=True))
+                except Exception:
+                    ok = False
+                authextra = {"scram_server_signature": base64.b64encode(keys.server_signature(am)).decode("ascii")}
+            elif cm == "cryptosign":
+                parts = CR.cryptosign_split_reply(sig)
+                chal = bytes.fromhex(case["challenge_hex"])
+                ok = bool(parts) and parts[1] == chal and CR.ed25519_verify(CR.ed25519_public_from_seed(bytes.fromhex(case["seed"])), parts[0], chal)
+                if ax.get("pubkey") != CR.ed25519_public_from_seed(bytes.fromhex(case["seed"])).hex():
+                    ok = False
+            elif cm == "wampcra":
+                c = case["cra"]
+                ok = sig == CR.cra_signature(CR.cra_key(case["secret"].encode("utf8"), c["salt"].encode("utf8"), c["iterations"], c["keylen"]),
+                                             c["challenge"].encode("utf8")).decode("ascii")
+                R.count("cra_entry_compared/session-wire")
+            elif cm == "ticket":
+                ok = sig == case["ticket"]
+            if not ok:
+                viol("C19/session/%s/authenticate/verifier-rejects" % cm,
+                     "the AUTHENTICATE signature a real Session sent for CHALLENGE(%s) is rejected by the independent verifier" % cm, signature=sig)
+        # WELCOME
+        details = {"roles": WELCOME_ROLES_, "realm": "realm1", "authid": case["authid"], "authrole": "user", "authprovider": "static"}
+        wm = case.get("welcome_authmethod")
+        if wm is not None:
+            details["authmethod"] = wm
+        wx = case.get("welcome_authextra", "correct")
+        if wx == "correct":
+            if authextra is not None:
+                details["authextra"] = authextra
+        elif wx == "correct-or-zeros":
+            details["authextra"] = authextra or {"scram_server_signature": base64.b64encode(bytes(32)).decode("ascii")}
+        elif wx == "empty":
+            details["authextra"] = {}
+        elif wx == "none":
+            pass
+        elif isinstance(wx, dict) and "flip" in wx:
+            raw = base64.b64decode(authextra["scram_server_signature"])
+            details["authextra"] = {"scram_server_signature": base64.b64encode(_flip_bit(raw, wx["flip"])).decode("ascii")}
+        elif isinstance(wx, dict) and "forge" in wx:
+            raw = base64.b64decode(authextra["scram_server_signature"]) if authextra else bytes(32)
+            forged = {"prefix-31": raw[:31], "empty": b"", "extended": raw + b"\x00", "zeros": bytes(32)}[wx["forge"]]
+            details["authextra"] = {"scram_server_signature": base64.b64encode(forged).decode("ascii")}
+        rp.send([2, case["session_id"], details])
+        after = rp.recv()
+        joined = any(e[0] == "join" for e in sess.events) or sess._session_id is not None
+        aborted = any(m and m[0] == 3 for m in after)
+        refused = aborted or bool(rp.ep.close_requested)
+        R.seen("session_outcomes", "%s/%s/%s" % (flow, "joined" if joined else "not-joined", "abort" if aborted else ("close" if refused else "no-abort")))
+        R.seen("nontrivial", h(["session", methods, flow, cm, wm, repr(wx), case["transport"], case["serializer"], case["authid"], case["session_id"]]))
+        R.seen("configs", "session/%s/%s/%s" % ("+".join(methods), flow, case["transport"]))
+        if flow == "honest":
+            R.count("session_honest_flows_judged")
+            if not joined or aborted:
+                viol("C19/session/honest/not-joined", "honest router (authmethod %r, verified AUTHENTICATE, correct WELCOME): session %s; sent %r"
+                     % (wm, "aborted" if aborted else "did not join", after))
+        elif cls == "scram-config" or flow == "bad-server-signature":
+            # the mutual-authentication clause: a client that offered WAMP-SCRAM joins only on a correct server signature
+            R.count("session_impostor_welcomes_judged")
+            R.count("session_impostor_welcomes_judged/" + flow)
+            if joined:
+                viol("%s/joined" % base, "a session configured with authenticators %r JOINED (on_join fired / session id set) after a WELCOME %s "
+                     "- no server signature was checked" % (methods, case["what"]), events=sess.events)
+            elif not refused:
+                R.count("session_impostor_not_joined_but_no_abort_observed")
+        else:
+            R.count("session_impostor_welcomes_observed_other_config")
+            R.count("session_impostor_other_config_%s" % ("joined" if joined else "refused"))
+    finally:
+        try:
+            rp.teardown()
+        except Exception:
+            pass
+        rp.close_world()
+
+
+def gen_session_cases(rng, tier):
+    quick = tier == "quick"
+
+    def basecase(methods):
+        kdf = rng.choice(["pbkdf2", "pbkdf2", "argon2id-13"])
+        return {"kind": "session-auth", "methods": methods, "authid": gen_text(rng, "alnum", 2, 10), "password": gen_password(rng, rng.choice(["ascii", "nonascii"])),
+                "seed": rng.randbytes(32).hex(), "secret": gen_text(rng, rng.choice(["ascii", "nonascii"]), 1, 24), "ticket": gen_text(rng, "alnum", 4, 20),
+                "challenge_hex": rng.randbytes(32).hex(), "session_id": rng.randrange(1, 2 ** 53),
+                "transport": rng.choice(["websocket", "websocket", "rawsocket"]), "serializer": rng.choice(["json", "json", "cbor", "msgpack"]),
+                "scram": {"kdf": kdf, "salt": rng.randbytes(rng.choice([8, 16, 32])).hex(), "salt_form": "canonical", "salt_variant": 0, "iterations": rng.choice([1, 2, 64]) if kdf == "pbkdf2" else rng.choice([1, 2]),
+                          "memory": None if kdf == "pbkdf2" else 8, "server_nonce_tail": base64.b64encode(rng.randbytes(12)).decode("ascii"),
+                          "channel_binding": None},
+                "cra": {"challenge": gen_challenge(rng, "json"), "salt": gen_text(rng, "alnum", 4, 16), "iterations": rng.choice([1, 2, 10, 100]),
+                        "keylen": rng.choice(CRA_KEYLENS)}}
+
+    reps = 1 if quick else 6
+    for rep in range(reps):
+        # honest flows: every configured method of every configuration; WAMP-CRA with every key length
+        for methods in SESSION_CONFIGS:
+            for m in methods:
+                c = basecase(methods)
+                c.update(flow="honest", challenge_method=None if m == "anonymous" else m, welcome_authmethod=m, what="honest")
+                yield c
+        for kl in CRA_KEYLENS:
+            c = basecase(rng.choice([["wampcra"], ["scram", "wampcra", "ticket"]]))
+            c["cra"]["keylen"] = kl
+            c.update(flow="honest", challenge_method="wampcra", welcome_authmethod="wampcra", what="honest")
+            yield c
+        # impostor: WELCOME claims a method the client did not offer, with / without a preceding CHALLENGE round
+        for methods in SESSION_CONFIGS:
+            foreign = [m for m in FOREIGN_METHODS if m not in methods]
+            for wm in (foreign if "scram" in methods else rng.sample(foreign, 3)):
+                for pre in (None, rng.choice([m for m in methods if m != "anonymous"])):
+                    c = basecase(methods)
+                    c.update(flow="foreign-authmethod" + ("-after-challenge" if pre else ""), challenge_method=pre, welcome_authmethod=wm,
+                             welcome_authextra=rng.choice(["none", "empty", "correct-or-zeros"]),
+                             what="whose authmethod %r is none of the offered ones%s" % (wm, " (after a regular CHALLENGE/AUTHENTICATE round)" if pre else ""))
+                    yield c
+            # WELCOME without any authmethod (the router claims not to have authenticated anybody)
+            if "anonymous" not in methods:
+                for pre in (None, rng.choice(methods)):
+                    c = basecase(methods)
+                    c.update(flow="missing-authmethod" + ("-after-challenge" if pre else ""), challenge_method=pre, welcome_authmethod=None,
+                             welcome_authextra=rng.choice(["none", "empty", "correct-or-zeros"]), what="without authmethod")
+                    yield c
+        # right method, wrong / missing server signature
+        for methods in (["scram"], ["scram", "cryptosign"], ["scram", "anonymous"]):
+            bits = sorted({0, 255} | {rng.randrange(256) for _ in range(6 if quick else 40)})
+            shapes = [{"flip": b} for b in bits] + [{"forge": f} for f in ("prefix-31", "empty", "extended", "zeros")] + ["empty", "none"]
+            for wx in shapes:
+                c = basecase(methods)
+                c.update(flow="bad-server-signature", challenge_method="scram", welcome_authmethod="scram", welcome_authextra=wx,
+                         what="with authmethod scram and server signature %r" % (wx,))
+                yield c
+            for wx in ("correct-or-zeros", "empty", "none"):
+                c = basecase(methods)
+                c.update(flow="bad-server-signature", challenge_method=None, welcome_authmethod="scram", welcome_authextra=wx,
+                         what="with authmethod scram without a preceding CHALLENGE (signature %s)" % wx)
+                yield c
+
 # ------------------------------------------------------------------------------------------------
 RUNNERS = {"cra": run_cra, "totp": run_totp, "totp-secret": run_totp_secret, "scram": run_scram, "scram-rfc7677": run_scram_rfc7677,
            "scram-credential": run_scram_credential, "cryptosign": run_cryptosign, "cryptosign-concurrent": run_cryptosign_concurrent,
-           "xor": run_xor}
+           "xor": run_xor, "cra-entry": run_cra_entry, "session-auth": run_session_auth}
 
 
 def run_shard(params, R):
-    fw = _setup_fw()
+    fw = _setup_fw(own_loop=params["section"] != "session")     # session cases run on the virtual loop of their vf.world
     R.count("ref_vectors_checked", CR.selfcheck())
     R.note("framework_" + fw, True)
     for k in DECIDING:
@@ -1342,6 +1683,10 @@ def run_shard(params, R):
     rng = random.Random(seed * 1000003 + SECTIONS.index(sec) * 10007 + part * 101 + (17 if fw == "aio" else 0))
     if sec == "cra":
         cases = gen_cra_cases(rng, tier, part, parts)
+        if part == parts - 1:
+            cases = list(gen_cra_entry_cases(rng, tier)) + list(cases)
+    elif sec == "session":
+        cases = gen_session_cases(rng, tier)
     elif sec == "totp":
         cases = gen_totp_cases(rng, tier)
     elif sec == "scram-argon":
@@ -1365,7 +1710,7 @@ def run_shard(params, R):
 
 
 def replay(case, R):
-    _setup_fw()
+    _setup_fw(own_loop=case.get("kind") != "session-auth")
     CR.selfcheck()
     RUNNERS[case["kind"]](case, R)
 
@@ -1382,7 +1727,11 @@ MANIFEST_ENTRY = {
              "are also sent in non-canonical base64 spellings (line breaks, non-zero pad bits; AuthMessage over the text as sent, "
              "KDF over its octets) and altered in their unused bits; one cryptosign key object / authenticator signs 2..4 "
              "challenges in flight at once and every reply is verified against its own challenge. Runs under "
-             "Twisted and asyncio. Held = no mismatch on the executions listed in the evidence; not a proof."),
+             "Twisted and asyncio. WAMP-CRA is signed through every public entry point (auth.AuthWampCra, create_authenticator, "
+             "autobahn.twisted.wamp.AuthWampCra, Session.add_authenticator+onChallenge) x key lengths {16,20,32,33,48,64}; at session "
+             "level a real Session with authenticators runs behind the real client transport against a scripted router (honest flows "
+             "must join with a verified AUTHENTICATE; a WELCOME naming a method that was not offered, no method, or scram with a "
+             "wrong/missing server signature must not make a SCRAM-offering session join). Held = no mismatch on the executions listed in the evidence; not a proof."),
     "note": ("trusts vf/crypto_ref.py and the third-party primitives it calls (hashlib, cryptography's Ed25519, argon2-cffi raw API, "
              "libsodium Argon2id); WAMP-SCRAM AuthMessage layout and the Argon2 encoded-tag-as-SaltedPassword convention are taken "
              "as the wire contract; passwords are generated SASLprep-stable; KDF-input bit alterations are capped per case when "
